@@ -7,12 +7,28 @@ use std::cell::{Cell, RefCell};
 thread_local! {
     static NOW: Cell<u64> = const { Cell::new(0) };
     static ALARMS: RefCell<Vec<u64>> = const { RefCell::new(Vec::new()) };
+    /// `now()` calls since control last returned to the executor
+    static NOW_CALLS: Cell<u64> = const { Cell::new(0) };
+    static SPUN: Cell<bool> = const { Cell::new(false) };
 }
+
+/// A future that reads the clock this often without ever returning Pending to the executor is
+/// busy-waiting on the clock. Virtual time would stand still for ever, so from here on every
+/// further read of the clock moves it by 1 ms: the spin ends, and is reported.
+const SPIN_THRESHOLD: u64 = 20_000;
 
 struct VDriver;
 
 impl embassy_time_driver::Driver for VDriver {
     fn now(&self) -> u64 {
+        let calls = NOW_CALLS.with(|c| {
+            c.set(c.get() + 1);
+            c.get()
+        });
+        if calls > SPIN_THRESHOLD {
+            SPUN.with(|s| s.set(true));
+            NOW.with(|n| n.set(n.get() + 1000));
+        }
         NOW.with(|n| n.get())
     }
     fn schedule_wake(&self, at: u64, _waker: &Waker) {
@@ -53,4 +69,16 @@ pub fn next_alarm() -> Option<u64> {
 pub fn reset() {
     set(0);
     clear_alarms();
+    yielded();
+    take_spun();
+}
+
+/// Called by the executor whenever an operation future hands control back (Pending or Ready).
+pub fn yielded() {
+    NOW_CALLS.with(|c| c.set(0));
+}
+
+/// Did a future busy-wait on the clock since the last call? (resets the flag)
+pub fn take_spun() -> bool {
+    SPUN.with(|s| s.replace(false))
 }
